@@ -30,6 +30,8 @@
     swap <a> <i,j,…> <k,l,…>                           two elements exchanged through
                                                        `get_reference_mut` / `try_get_reference_mut`
     layout <a>                                         `data_layout` of the container as a source
+    api-report <route> …                               which of these call sites of the harness were
+                                                       never reached during the run (aux; none)
 
   An operand is `name` (the owned container itself) or `name/<view>`: `ref` (borrowed),
   `acc.<perm>` (`TensorAccess`, dimension `perm[k]` of the source becomes dimension `k`),
@@ -827,6 +829,9 @@ def step (s : State) (toks : List String) : State × String :=
   | "@" :: "tapes" :: n :: "f64" :: _ => (.f64 { ntapes := n.toNat?.getD 1 }, "ok")
   | "@" :: "tapes" :: n :: "rat" :: _ => (.rat { ntapes := n.toNat?.getD 1 }, "ok")
   | "@" :: "tapes" :: n :: _ => (.fp { ntapes := n.toNat?.getD 1 }, "ok")
+  -- the harness's account of which API items its run reached (scan of the source tree against
+  -- the table of harness/src/c06_api.rs): nothing may be missing
+  | "api-report" :: routes => (s, s!"api-report n={routes.length} ## missing=")
   | _ =>
     match s with
     | .none => (s, "bad-op")
